@@ -2,7 +2,7 @@
 C03 — line-protocol driver: a `Db` and a clock, edited and queried by the same operation
 sequence the harness applies to real `UsersDictionary` / `ChannelsDictionary` / `conf` objects.
 -/
-import LimnoriaModel.C03.Model
+import LimnoriaModel.C03.Spec
 import LimnoriaModel.Driver.Core
 namespace C03
 open Py Wire
@@ -46,7 +46,7 @@ def sortStrs (xs : List String) : List String := xs.mergeSort (fun a b => decide
 
 def dump (db : Db) : String :=
   "U=" ++ ";".intercalate (sortStrs (db.users.map dumpUser)) ++
-  "|C=" ++ ";".intercalate (sortStrs ((db.channels.filter (fun p => decide (p.2 ≠ Channel.default))).map dumpChan)) ++
+  "|C=" ++ ";".intercalate (sortStrs ((db.channels.filter (fun p => p.2.defaultAllow != Channel.default.defaultAllow || encSet p.2.caps != encSet Channel.default.caps)).map dumpChan)) ++
   "|D=" ++ encSet db.defaults ++ "|R=" ++ encSet db.registered ++ "|F=" ++ encB db.defaultFlag
 
 def withUser (st : DState) (id : Nat) (f : User → R User) : DState × String :=
@@ -153,6 +153,14 @@ def step (st : DState) : List String → DState × String
     match dec h, decList caps, decBool ra with
     | some h, some caps, some ra => (st, encRB (st.db.checkCapabilities st.now h caps ra))
     | _, _, _ => (st, "bad-op")
+  | ["spec", h, cap, fl] =>
+    -- the decision list the theorems are about (only meaningful for valid capabilities)
+    match dec h, dec cap, decFlags fl with
+    | some h, some cap, some fl =>
+      (st, if validCap cap then encRB (.ok (Spec.decide st.db st.now h cap fl)) else "invalid")
+    | _, _, _ => (st, "bad-op")
+  | ["wf"] => (st, encB st.db.wfB)
+  | ["validCap", c] => (st, match dec c with | some c => encB (validCap c) | none => "bad-op")
   | ["dump"] => (st, dump st.db)
   -- pure string algebra
   | ["isCapability", c] => (st, match dec c with | some c => encB (isCapability c) | none => "bad-op")
